@@ -179,6 +179,24 @@ func simGen(r *rand.Rand, tier string, n int) []*wire.Case {
 		mk("d-named-target", s)
 	}
 	{
+		s := base() // named targets of the wrong class for an ally-typed / self-typed skill; absent ids
+		s.ckind = []int{1, 2}
+		s.next = "1:s3,s2,s1,s99,s0|2:s1,s2,s4,s2"
+		s.dflt = "1:a100|2:a3"
+		s.cycles = 5
+		mk("d-named-wrong-class", s)
+	}
+	{
+		s := base() // ultimates aimed at named units of either side, dead ones and absent ones
+		s.ckind = []int{1, 0}
+		s.cenergy = []float64{120, 100}
+		s.ehp = []float64{300, 5000}
+		s.progs[0] = "Ap.1.1.400+Ns.200"
+		s.ults = "1u3|1u2+2u1|2u3|1u99|2u4|1u1|2u0"
+		s.cycles = 4
+		mk("d-named-ult-targets", s)
+	}
+	{
 		s := base() // heal a unit that already reached zero in the same action (before the death check)
 		s.ckind = []int{1, 0}
 		s.cskill = []int{6, 1}
